@@ -107,7 +107,7 @@ class SharedBufferAPI : public BufferAPI<ArrayT>
      { return !_orig.writable(); }
 
     void *buffer() override
-     { return static_cast<void *> (&_orig.direct_index(0)); }
+     { return static_cast<void *> (&_orig.unchecked_direct_index(0)); }
 
   private:
 
@@ -256,7 +256,10 @@ getbuffer (PyObject *obj, Py_buffer *view, int flags)
     BufferAPI<ArrayT> *api   = nullptr;
     bool writableBuffer = ((flags & PyBUF_WRITABLE) == PyBUF_WRITABLE);
     if (writableBuffer && !array.writable())
-        api = new CopyBufferAPI<ArrayT> (array);  
+    {
+        PyErr_SetString (PyExc_BufferError, "FixedArray is read-only");
+        return -1;
+    }
     else
         api = new SharedBufferAPI<ArrayT> (array);  
 
